@@ -33,6 +33,7 @@ type genCfg struct {
 	enum32   bool // keep enum values within int32
 	holders  bool // fill _unknownFields
 	spareCap bool // holders get spare capacity
+	h        *H   // records the backing arrays of spare-capacity holders
 }
 
 var strLens = []int{0, 0, 1, 2, 7, 31, 255, 256, 257, 300, 2047, 2048, 2049, 5000}
@@ -106,7 +107,7 @@ func (g *genCfg) f64() float64 {
 
 func (g *genCfg) bytes() []byte {
 	n := strLens[g.r.Intn(len(strLens))]
-	if !g.bigStr && n > 40 {
+	if n > 40 && (!g.bigStr || g.r.Intn(8) != 0) {
 		n = g.r.Intn(12)
 	}
 	b := make([]byte, n)
@@ -221,6 +222,9 @@ func (g *genCfg) gen(v reflect.Value) {
 					}
 					copy(back, raw)
 					raw = back[:len(raw)]
+					if g.h != nil {
+						g.h.spares = append(g.h.spares, back[len(raw):])
+					}
 				}
 				setUnexported(hf, reflect.ValueOf(raw))
 			}
